@@ -33,6 +33,8 @@ type TraceTx struct {
 	Msg    json.RawMessage `json:"msg"`
 	Code   uint32          `json:"code"`
 	Log    string          `json:"log,omitempty"`
+	// JoinPrev: a further message of the same transaction as the entry before it
+	JoinPrev bool `json:"join_prev,omitempty"`
 }
 
 type EnvAction struct {
@@ -84,6 +86,7 @@ type Profile struct {
 	Spec       func(t *rapid.T) WorldSpec
 	Prepare    func(h *History) error              // after BuildWorld, before history
 	PreBlock   func(h *History, g *G) []EnvAction  // env actions drawn before a block
+	MultiMsg   bool                                // one tx in five carries 2-3 messages of the same signer (atomic)
 	Filter     func(h *History, g *G, op *Op) bool // false → drop op (counted)
 	Check      func(h *History, blk *BlockRecord) []Violation
 	Final      func(h *History) []Violation
@@ -188,7 +191,13 @@ func (h *History) step(gap time.Duration, env []EnvAction, kinds []string) []Vio
 		if i < len(kinds) {
 			kind = kinds[i]
 		}
-		tb.Txs = append(tb.Txs, TraceTx{Signer: tx.Signer, Fee: tx.Fee, Kind: kind, Msg: json.RawMessage(tx.MsgJSON), Code: tx.Code, Log: shorten(tx.Log, 300)})
+		tb.Txs = append(tb.Txs, TraceTx{Signer: tx.Signer, Fee: tx.Fee, Kind: kind, Msg: json.RawMessage(tx.MsgJSON), Code: tx.Code, Log: shorten(tx.Log, 300), JoinPrev: tx.JoinPrev})
+		if tx.JoinPrev {
+			h.Labels["multi-msg-tx-parts"]++
+			if tx.Code != 0 {
+				h.Labels["multi-msg-tx-parts-rolled-back"]++
+			}
+		}
 		if tx.Code == 0 {
 			h.OpOK[kind]++
 		} else {
@@ -323,8 +332,20 @@ func runHistoryCore(t *rapid.T, p *Profile) (*History, []Violation) {
 					fee = sdk.NewCoins(sdk.NewInt64Coin(d, int64(g.Int("feeamt", 1, 5000))))
 				}
 			}
-			h.W.SubmitFee(op.Signer, fee, op.Msg)
-			kinds = append(kinds, op.Kind)
+			msgs, ks := []sdk.Msg{op.Msg}, []string{op.Kind}
+			if p.MultiMsg && g.Int("multimsg?", 0, 4) == 0 {
+				// an atomic multi-message transaction: one or two further messages by the same signer
+				g.Force = op.Signer
+				for k, n := 0, 1+g.Int("multimsg/n", 0, 1); k < n; k++ {
+					name2 := drawWeighted(g, names, ws)
+					if op2 := AllOps[name2](g); op2 != nil && op2.Signer == op.Signer && (p.Filter == nil || p.Filter(h, g, op2)) {
+						msgs, ks = append(msgs, op2.Msg), append(ks, op2.Kind)
+					}
+				}
+				g.Force = nil
+			}
+			h.W.SubmitMultiFee(op.Signer, fee, msgs...)
+			kinds = append(kinds, ks...)
 		}
 		if p.ExtraOps != nil {
 			// profile-specific txs, interleaved at drawn positions among the grammar's txs
@@ -339,6 +360,9 @@ func runHistoryCore(t *rapid.T, p *Profile) (*History, []Violation) {
 				// only if the signer has a single tx in the block, which ExtraOps guarantees per position swap below)
 				pos := g.Pick("extrapos", len(h.W.Pending))
 				last := len(h.W.Pending) - 1
+				for pos < last && h.W.Pending[pos].JoinPrev {
+					pos++ // never into the middle of a multi-message transaction
+				}
 				if pos != last && !sameSignerBetween(h.W.Pending, pos, last) {
 					tx, k := h.W.Pending[last], kinds[last]
 					copy(h.W.Pending[pos+1:], h.W.Pending[pos:last])
@@ -543,6 +567,42 @@ func ReplayTrace(p *Profile, tr *Trace) ([]Violation, error) {
 	return v, err
 }
 
+// submitTraceTxs signs and queues the transactions of a recorded block (consecutive entries marked JoinPrev are
+// the further messages of one multi-message transaction) and returns the op kinds, one per entry.
+func (h *History) submitTraceTxs(b TraceBlock) ([]string, error) {
+	var kinds []string
+	for i := 0; i < len(b.Txs); i++ {
+		tx := b.Txs[i]
+		acc := h.W.accountByName(tx.Signer)
+		if acc == nil {
+			return nil, fmt.Errorf("unknown signer %s", tx.Signer)
+		}
+		fee, err := sdk.ParseCoinsNormalized(tx.Fee)
+		if err != nil {
+			return nil, err
+		}
+		if tx.JoinPrev && tx.Fee == "" {
+			// a part whose head was removed by the shrinker: it becomes a transaction of its own
+			fee = DefaultFee
+		}
+		var msgs []sdk.Msg
+		for j := i; j < len(b.Txs); j++ {
+			if j > i && !(b.Txs[j].JoinPrev && b.Txs[j].Signer == tx.Signer) {
+				break
+			}
+			var msg sdk.Msg
+			if err := h.W.App.AppCodec().UnmarshalInterfaceJSON(b.Txs[j].Msg, &msg); err != nil {
+				return nil, fmt.Errorf("decode msg: %w", err)
+			}
+			msgs = append(msgs, msg)
+			kinds = append(kinds, b.Txs[j].Kind)
+		}
+		h.W.SubmitMultiFee(acc, fee, msgs...)
+		i += len(msgs) - 1
+	}
+	return kinds, nil
+}
+
 // ReplayTraceH also returns the history (labels, known-finding hits).
 func ReplayTraceH(p *Profile, tr *Trace) (*History, []Violation, error) {
 	h, err := newHistory(p, tr.Spec)
@@ -561,22 +621,9 @@ func ReplayTraceH(p *Profile, tr *Trace) (*History, []Violation, error) {
 				return nil, nil, err
 			}
 		}
-		var kinds []string
-		for _, tx := range b.Txs {
-			var msg sdk.Msg
-			if err := h.W.App.AppCodec().UnmarshalInterfaceJSON(tx.Msg, &msg); err != nil {
-				return nil, nil, fmt.Errorf("decode msg: %w", err)
-			}
-			acc := h.W.accountByName(tx.Signer)
-			if acc == nil {
-				return nil, nil, fmt.Errorf("unknown signer %s", tx.Signer)
-			}
-			fee, err := sdk.ParseCoinsNormalized(tx.Fee)
-			if err != nil {
-				return nil, nil, err
-			}
-			h.W.SubmitFee(acc, fee, msg)
-			kinds = append(kinds, tx.Kind)
+		kinds, err := h.submitTraceTxs(b)
+		if err != nil {
+			return nil, nil, err
 		}
 		v := h.step(time.Duration(b.GapNs), b.Env, kinds)
 		h.Trace.Blocks[len(h.Trace.Blocks)-1].Tag = b.Tag
